@@ -9,6 +9,9 @@
 // except according to those terms.
 
 use std::io;
+#[cfg(cadence_verif)]
+use cadence_dsim::sync::atomic::{AtomicU64, Ordering};
+#[cfg(not(cadence_verif))]
 use std::sync::atomic::{AtomicU64, Ordering};
 use std::sync::Arc;
 
